@@ -478,9 +478,11 @@ class DataFrameSchemaBackend(PolarsSchemaBackend):
             else:
                 for col_schema in schema.columns.values():
                     if (
-                        not col_schema.required
+                        not getattr(col_schema, "regex", False)
                         and col_schema.name not in lf_columns
                     ):
+                        # nothing to coerce: a required column that is
+                        # missing is reported by the column presence check
                         continue
 
                     if schema.coerce or col_schema.coerce:
